@@ -28,12 +28,15 @@ theorem tie_quit (isLoopThread : Bool) :
   unfold quitWakes; cases isLoopThread <;> simp
 
 /-- `~EventLoopThread` tests `loop_` and calls `quit()` under `mutex_` and joins whenever the thread was started;
-`threadFunc` publishes and clears `loop_` under `mutex_` and notifies; `startLoop` re-tests `loop_` after every
-wake-up -/
+`threadFunc` publishes and clears `loop_` under `mutex_` and notifies, and when it clears `loop_` it also records
+`finished_` and notifies again; `startLoop` re-tests after every wake-up and waits only while `loop_ == NULL` **and**
+the thread has not finished -/
 theorem tie_thread :
     dtorLocks = true ∧ dtorJoinsIfStarted = true ∧ publishLocks = true ∧ publishNotifies = true ∧
-    clearLocks = true ∧ startWaitsWhile = true :=
-  ⟨dtorLocks_tie, dtorJoinsIfStarted_tie, shape_tie_quit.2.2, publishNotifies_tie, clearLocks_tie, startWaitsWhile_tie⟩
+    clearLocks = true ∧ finishSets = true ∧ finishNotifies = true ∧ startWaitsWhile = true ∧
+    startChecksFinished = true :=
+  ⟨dtorLocks_tie, dtorJoinsIfStarted_tie, shape_tie_quit.2.2, publishNotifies_tie, clearLocks_tie, finishSets_tie,
+   finishNotifies_tie, startWaitsWhile_tie, startChecksFinished_tie⟩
 
 /-! ## quit() -/
 
@@ -109,29 +112,38 @@ theorem loop_lifetime (s : St) (h : Reachable s) :
   have hi := reachable_invariant (P := EltInv) init_eltInv (fun _ k h => step_eltInv k h) h
   exact ⟨hi.alive, fun hl => (hi.ptr hl).1, hi.ptrElt⟩
 
-/-- **startLoop_owned**: when `startLoop()` returns, `loop_` is published, the loop object exists, it was constructed
-by and belongs to the new thread (the caller is another thread), and it accepts tasks: the step that returns is a
-step of a thread other than the loop thread, taken while the loop is between publication and the end of `loop()` -/
+/-- **startLoop_owned**: when `startLoop()` returns a loop, `loop_` is published, the loop object exists, it was
+constructed by and belongs to the new thread (the caller is another thread), and it accepts tasks: the step that
+returns is taken while the loop is between publication and the end of `loop()`.  The only other way `startLoop()`
+returns is with NULL, and only when the loop thread has already left `loop()` and destroyed its loop — which requires
+that somebody called `quit()` before `startLoop()` had looked (e.g. the thread-init callback). -/
 theorem startLoop_owned (s : St) (h : Reachable s) (k : Nat) (hk : k ≠ s.L)
-    (hout : (step s k).out = some .started) :
-    s.loopPtr = true ∧ s.alive = true ∧ running s.phase = true ∧ s.mtx = false := by
+    (hout : (step s k).out = some .started ∨ (step s k).out = some .startedNull) :
+    ((step s k).out = some .started ∧ s.loopPtr = true ∧ s.alive = true ∧ running s.phase = true ∧ s.mtx = false) ∨
+    ((step s k).out = some .startedNull ∧ s.loopPtr = false ∧ s.phase = .dead ∧ s.alive = false ∧ s.qreq = true) := by
   have hi := reachable_invariant (P := EltInv) init_eltInv (fun _ k h => step_eltInv k h) h
-  have hl : s.loopPtr = true ∧ s.mtx = false := by
+  have hst : step s k = stepOther s k := by simp [step, hk]
+  rw [hst] at hout ⊢
+  have key : ((stepOther s k).out = some .started ∧ s.loopPtr = true ∧ s.mtx = false) ∨
+      ((stepOther s k).out = some .startedNull ∧ s.loopPtr = false ∧ s.finished = true) := by
     have := startWaitsWhile_tie
-    simp only [step, hk, if_false] at hout
     revert hout
     other_cases
     all_goals (intro hout; simp_all)
-  refine ⟨hl.1, ?_, (hi.ptr hl.1).1, hl.2⟩
-  rw [hi.alive]; have := (hi.ptr hl.1).1; cases hp : s.phase <;> simp_all [running, hasLoop]
+  rcases key with ⟨ho, hl, hm⟩ | ⟨ho, hl, hf⟩
+  · refine Or.inl ⟨ho, hl, ?_, (hi.ptr hl).1, hm⟩
+    rw [hi.alive]; have := (hi.ptr hl).1; cases hp : s.phase <;> simp_all [running, hasLoop]
+  · have hd := hi.fin.2.mp hf
+    refine Or.inr ⟨ho, hl, hd, ?_, returns_only_after_quit s h (Or.inr (Or.inr hd))⟩
+    rw [hi.alive, hd]; rfl
 
 /-- **stuck_states**: a reachable state in which no thread can move looks like this — every thread other than the
-loop thread has finished its program, except a `startLoop()` whose loop came and went before it looked
-(`StartOrphan`: somebody quit the loop before `startLoop()` returned) or a destructor that ran before `loop_` was
-published (`EarlyDestroy`: the object was destroyed while `startLoop()` had not returned); and the loop thread has
-finished, or sleeps in `poll` with no byte in the pipe, the eventfd not readable and **no `quit()` outstanding** -/
+loop thread has finished its program, except a destructor that ran before `loop_` was published (`EarlyDestroy`: the
+object was destroyed while `startLoop()` had not returned); and the loop thread has finished, or sleeps in `poll`
+with no byte in the pipe, the eventfd not readable and **no `quit()` outstanding**.  In particular no thread is ever
+blocked forever inside `startLoop()`, whoever quits the loop and whenever. -/
 theorem stuck_states (s : St) (h : Reachable s) (hs : Stuck s) :
-    (∀ k, k ≠ s.L → finished s k = true ∨ StartOrphan s k ∨ EarlyDestroy s k) ∧
+    (∀ k, k ≠ s.L → finished s k = true ∨ EarlyDestroy s k) ∧
     (finished s s.L = true ∨ IdleInPoll s) :=
   stuck_analysis (reachable_invariant (P := QuitInv) init_quit (fun _ k h => step_quit k h) h)
     (reachable_invariant (P := EltInv) init_eltInv (fun _ k h => step_eltInv k h) h) hs
@@ -146,9 +158,8 @@ theorem join_terminates (s : St) (h : Reachable s) (k : Nat) (hk : k ≠ s.L) (h
     cases he : enabled s j with
     | false => rfl
     | true => exact absurd ⟨j, he⟩ hne
-  rcases (stuck_states s h hs).1 k hk with h1 | h1 | h1
+  rcases (stuck_states s h hs).1 k hk with h1 | h1
   · simp [finished, hk, hpc] at h1
-  · simp [StartOrphan, hpc] at h1
   · simp [EarlyDestroy, hq] at h1
 
 /-- the destructor's own path: from its test of `loop_` to `join()` it is never blocked (it holds the mutex), and a
@@ -166,10 +177,10 @@ theorem dtor_quits_before_join (s : St) (k : Nat) (hk : k ≠ s.L) (hpc : (s.thr
   · simp [stepOther, hpc, doQuitStore]
   · rw [enabled, hL, if_neg hk]; simp [otherEnabled, hpc']
 
-/-- **startLoop_terminates**: as long as nobody has called `quit()`, a thread inside `startLoop()` is never in an
-all-blocked state -/
+/-- **startLoop_terminates**: a thread inside `startLoop()` is never in an all-blocked state — also when the loop is
+quit (by the thread-init callback, by a functor it queued, by anybody) before `startLoop()` has seen `loop_` -/
 theorem startLoop_terminates (s : St) (h : Reachable s) (k : Nat) (hk : k ≠ s.L)
-    (hpc : (s.thr k).pc = .sCheck ∨ (s.thr k).pc = .sWaiting) (hq : s.qreq = false) :
+    (hpc : (s.thr k).pc = .sCheck ∨ (s.thr k).pc = .sWaiting) :
     ∃ j, enabled s j = true := by
   apply Classical.byContradiction
   intro hne
@@ -177,9 +188,8 @@ theorem startLoop_terminates (s : St) (h : Reachable s) (k : Nat) (hk : k ≠ s.
     cases he : enabled s j with
     | false => rfl
     | true => exact absurd ⟨j, he⟩ hne
-  rcases (stuck_states s h hs).1 k hk with h1 | h1 | h1
+  rcases (stuck_states s h hs).1 k hk with h1 | h1
   · rcases hpc with hpc | hpc <;> simp [finished, hk, hpc] at h1
-  · have := returns_only_after_quit s h (Or.inr (Or.inr h1.2)); simp [hq] at this
   · rcases hpc with hpc | hpc <;> simp [EarlyDestroy, hpc] at h1
 
 /-- **clean_shutdown**: the documented use of `EventLoopThread` — one owner thread calls `startLoop()`, then hands any
@@ -256,6 +266,16 @@ example :
     let s := run (init true false (fun _ => []) [] (fun k => if k = 0 then .startLoop :: ([.queue 1] ++ [.destroy]) else []))
                  [0, 1, 1, 1, 1, 1, 0, 0, 0, 0, 0, 0, 0, 1, 1, 1, 1, 1, 1, 1, 1, 1, 1, 1, 1, 1, 1, 0]
     enabled s 0 = false ∧ enabled s 1 = false ∧ s.phase = .dead ∧ userOnly [Sub.queue 1] = true := by
+  decide +kernel
+
+/-- the thread-init callback quits the loop and the loop thread runs to its end before the owner looks: `startLoop()`
+returns NULL (it used to wait forever), the owner's destructor joins -/
+example :
+    let s := run (init true false (fun _ => []) [.quit] (fun k => if k = 0 then [.startLoop, .destroy] else []))
+                 [0, 1, 1, 1, 1, 1, 1, 1, 1, 1, 1, 1, 0, 0, 0, 0]
+    s.phase = .dead ∧ s.finished = true ∧ (s.thr 0).pc = .idle ∧ (s.thr 0).prog = [] ∧ s.uafDtor = false ∧
+    (step (run (init true false (fun _ => []) [.quit] (fun k => if k = 0 then [.startLoop, .destroy] else []))
+            [0, 1, 1, 1, 1, 1, 1, 1, 1, 1, 1, 1]) 0).out = some .startedNull := by
   decide +kernel
 
 /-- a `quit()` that completes before `loop()` starts: the flag is still set when the loop tests it -/
